@@ -75,6 +75,15 @@ func c07payload(kind string) []byte {
 		m, _ := stun.Build(stun.BindingRequest, stun.TransactionID, stun.NewSoftware("looks like STUN"), stun.Fingerprint)
 
 		return append([]byte{}, m.Raw...)
+	case "trunc": // a STUN header with the cookie that announces 32 bytes of attributes and carries 8: IsMessage, undecodable
+		b := make([]byte, 28)
+		b[1], b[3] = 0x01, 32
+		b[4], b[5], b[6], b[7] = 0x21, 0x12, 0xA4, 0x42
+		for i := 8; i < 28; i++ {
+			b[i] = byte(i)
+		}
+
+		return b
 	case "cookie": // 20 bytes, first two bits zero, magic cookie in place, nothing else valid
 		b := make([]byte, 20)
 		b[1] = 0x01
@@ -142,7 +151,7 @@ func (m *dataModel) selKey(i int) string {
 	return sp.Local.addr().String() + ">" + sp.Remote.addr().String()
 }
 
-var c07payloads = []string{"1", "19", "20", "1200", "8192", "stun", "cookie"} //nolint:gochecknoglobals
+var c07payloads = []string{"1", "19", "20", "1200", "8192", "stun", "cookie", "trunc"} //nolint:gochecknoglobals
 
 func (m *dataModel) extras() []string {
 	var evs []string
@@ -155,7 +164,11 @@ func (m *dataModel) extras() []string {
 		}
 		for si := range m.side[i].socks {
 			for _, src := range []string{"foreign", "peer-other", "peer-selected"} {
-				for _, k := range []string{"20", "1200", "stun"} {
+				kinds := []string{"20", "1200", "stun"}
+				if src == "peer-selected" { // from the one source whose data is let through: everything that looks like STUN, decodable or not
+					kinds = append(kinds, "cookie", "trunc")
+				}
+				for _, k := range kinds {
 					evs = append(evs, fmt.Sprintf("inject:%d:%d:%s:%s", i, si, src, k))
 				}
 			}
@@ -371,7 +384,7 @@ func (m *dataModel) Close() {
 }
 
 func checkC07(c *runCtx) {
-	c.assume("payload kinds: 1, 19, 20, 1200, 8192 bytes of non-STUN data, a well-formed STUN message, and 20 bytes carrying only the magic cookie",
+	c.assume("payload kinds: 1, 19, 20, 1200, 8192 bytes of non-STUN data, a well-formed STUN message, 20 bytes carrying only the magic cookie, and a STUN header with the cookie whose announced length exceeds the datagram (undecodable)",
 		"'known remote' is evaluated against the receiving agent's remote candidate set at the moment of delivery",
 		"data writes and injections are deviations from the default session schedule; each execution carries at most two of them")
 	p := newVTPool()
